@@ -308,6 +308,68 @@ CORPUS_TEXTS = [
 ]
 
 
+def decoder_correspondence(P, rng, n):
+    """The real visitor's decoders vs the Lean model of them (Abnf/Compile.lean) on random repeat / num-val texts and
+    random texts for the line-end normalisation."""
+    lines = []
+    expect = []
+    vis = P.ABNFGrammarNodeVisitor(type("Dec", (P.Rule,), {}))
+
+    def cp(s):
+        return " ".join(str(ord(c)) for c in s)
+
+    for _ in range(n):
+        # repeat
+        a = "".join(rng.choice("0123456789") for _ in range(rng.randint(0, 4)))
+        b = "".join(rng.choice("0123456789") for _ in range(rng.randint(0, 4)))
+        star = rng.random() < 0.7
+        text = a + ("*" + b if star else "")
+        if text:
+            try:
+                node = P.ABNFGrammarRule("repeat").parse_all(text)
+                r = vis.visit_repeat(node)
+                got = f"{r.min} {'-' if r.max is None else r.max}"
+            except P.ParseError:
+                got = None
+            if got is not None:
+                lines.append(f"decrepeat {cp(a)} | {1 if star else 0} | {cp(b) if star else ''}".replace("  ", " "))
+                expect.append(("repeat", text, got))
+        # num-val
+        radix = rng.choice("bdxBDX")
+        base = {"b": 2, "d": 10, "x": 16}[radix.lower()]
+        digs = "01" if base == 2 else "0123456789" if base == 10 else "0123456789abcdefABCDEF"
+
+        def num():
+            return "".join(rng.choice(digs) for _ in range(rng.randint(1, 5)))
+        first = num()
+        kind = rng.choice(["single", "range", "series"])
+        more = [] if kind == "single" else [num()] if kind == "range" else [num() for _ in range(rng.randint(1, 3))]
+        text = "%" + radix + first + ("" if kind == "single" else "-" + more[0] if kind == "range" else "".join("." + m for m in more))
+        try:
+            vals = [int(first, base)] + [int(m, base) for m in more]
+            if max(vals) > 0x10FFFF:
+                continue
+            node = P.ABNFGrammarRule("num-val").parse_all(text)
+            lit = vis.visit(node)
+            if isinstance(lit.value, tuple):
+                got = f"range {ord(lit.value[0])} {ord(lit.value[1])}"
+            else:
+                got = "lit" + "".join(f" {ord(c)}" for c in lit.value)
+        except P.ParseError:
+            continue
+        lines.append(f"decnumval {base} {kind} {cp(first)}" + "".join(" | " + cp(m) for m in more))
+        expect.append(("num-val", text, got))
+        # line ends (strict loading): what the reader is given
+        t = "".join(rng.choice(["a", " ", "\n", "\r\n", "\r", "=", "\t"]) for _ in range(rng.randint(0, 8))).rstrip() 
+        seen = []
+        orig = P.ABNFGrammarRule("rulelist").parse_all
+        lines.append("normle" + (" " + cp(t) if t else ""))
+        expect.append(("line-ends", t, cp(t.rstrip().replace("\r", "").replace("\n", "\r\n") + "\r\n")))
+    out = lib.run_driver(lines)
+    bad = [(k, t, g, m) for (k, t, g), m in zip(expect, out) if g != m]
+    return len(expect), bad
+
+
 def _chunk(args):
     seed, n = args
     P = lib.import_repo()
@@ -362,6 +424,13 @@ def run(ctx):
                     rep += 1
                     ctx.report("compiled structure differs from what the text denotes (route %s): %r: %s" % (route, texts, why),
                                {"kind": "compile", "route": route, "texts": texts, "expected": exp, "why": why}, key="compile:" + lib.digest([texts, route]))
+    ndec, decbad = decoder_correspondence(P, rng, ctx.budget(1500, 30000))
+    evals += ndec
+    for k, t, g, m in decbad[:2]:
+        found = True
+        rep += 1
+        ctx.report("decoder %s on %r: implementation %r, model %r" % (k, t, g, m), {"kind": "decoder", "decoder": k, "text": t, "implementation": g, "model": m},
+                   key="decoder:%s:%s" % (k, t))
     n = ctx.budget(160, 3000)
     chunks = 32
     import multiprocessing as mp
@@ -385,7 +454,7 @@ def run(ctx):
         "distinct_nontrivial": len(distinct),
         "rule": "generated ABNF ASTs (1-3 rules, every element kind and repeat form, = and =/) x 2 random layouts x 7 loading routes; "
                 "distinct = distinct rendered texts; every rendering contains at least one repeat/num-val/char-val/group to decode",
-        "samples": samples, "failure_kinds": fails, "routes": ROUTES,
+        "samples": samples, "failure_kinds": fails, "routes": ROUTES, "decoder_cases": ndec, "decoder_disagreements": len(decbad),
     })
     cc.conclude(ctx, 0, found)
 
